@@ -35,3 +35,13 @@ pub fn string_to_owned(s: &String) -> (r: String)
 {
     s.to_owned()
 }
+
+// Iterator::unzip over a Vec of pairs (expression hole)
+#[verifier::external_body]
+pub fn unzip_pairs(v: Vec<(MatchType, String)>) -> (r: (Vec<MatchType>, Vec<String>))
+    ensures
+        r.0@.len() == v@.len(), r.1@.len() == v@.len(),
+        forall|i: int| 0 <= i < v@.len() ==> r.0@[i] == (#[trigger] v@[i]).0 && r.1@[i] == v@[i].1,
+{
+    v.into_iter().unzip()
+}
